@@ -2,6 +2,7 @@
 Audio/RegionProofs.v + correspondence of the real AudioRegion with the
 extracted model (exhaustive small scope for slicing, random operation
 sequences for the algebra)."""
+import sys
 import itertools
 import warnings
 
@@ -181,6 +182,33 @@ def run_C16(res, tier):
                 viol = {"what": "a seconds / milliseconds view kept without its region slices differently from the view of an identical region", "format": [w_, ch_]}
         except Exception as e:
             viol = viol or {"what": "slicing through a seconds / milliseconds view whose region is no longer referenced elsewhere raised %s: %s" % (type(e).__name__, e), "format": [w_, ch_]}
+    # a view slices the region it was taken from, whatever other regions' views were looked up in the meantime
+    for w_, ch_ in FORMATS[:3]:
+        ra, rb = AudioRegion(mk_bytes(70, w_, ch_), 10, w_, ch_), AudioRegion(mk_bytes(30, w_, ch_, r), 10, w_, ch_)
+        try:
+            va, ma = ra.seconds, ra.millis
+            vb, mb = rb.seconds, rb.millis          # looked up after a's, used before
+            got = [vb[0.5:2.0].data, mb[500:2000].data, va[1.5:4.2].data, ma[1500:4200].data, ra.seconds[:rb.seconds.len if hasattr(rb.seconds, "len") else 3.0].data,
+                   ra.sec[1.0:].data, ra.s[:2.0].data, ra.ms[1000:].data]
+            want = [rb[5:20].data, rb[5:20].data, ra[15:42].data, ra[15:42].data, ra[0:30].data, ra[10:].data, ra[:20].data, ra[10:].data]
+            if viol is None and got != want:
+                k_ = [g == w__ for g, w__ in zip(got, want)].index(False)
+                viol = {"what": "with the views of two regions (70 and 30 samples at 10 Hz) looked up one after the other, slice no. %d through a view (%s) holds %d bytes that are not those of its own region's samples" % (
+                    k_, ["b.seconds[0.5:2.0]", "b.millis[500:2000]", "a.seconds[1.5:4.2]", "a.millis[1500:4200]", "a.seconds[:b's duration]", "a.sec[1.0:]", "a.s[:2.0]", "a.ms[1000:]"][k_], len(got[k_])),
+                        "format": [w_, ch_]}
+        except Exception as e:
+            viol = viol or {"what": "slicing through views of two regions looked up alternately raised %s: %s" % (type(e).__name__, e), "format": [w_, ch_]}
+    # whole numbers of seconds of any magnitude are clamped like any Python slice bound (int arithmetic: no float overflow)
+    big = AudioRegion(mk_bytes(12, 2, 1), 16000, 2, 1)
+    for a_, b_ in ((0, 10 ** 400), (2 ** 1024, None), (None, 10 ** 305), (-10 ** 400, 10 ** 400), (-10 ** 320, None), (None, -2 ** 1100), (10 ** 30, 10 ** 31), (0, 2 ** 64)):
+        try:
+            got = big.seconds[a_:b_]
+            exp = big[(None if a_ is None else max(-13, min(13, a_))):(None if b_ is None else max(-13, min(13, b_)))]
+            if viol is None and got.data != exp.data:
+                viol = {"what": "seconds view [%s:%s] of a 12-sample region holds %d bytes, the clamped slice %d" % (str(a_)[:12] + ("..." if len(str(a_)) > 12 else ""), str(b_)[:12] + ("..." if len(str(b_)) > 12 else ""), len(got.data), len(exp.data))}
+        except Exception as e:
+            viol = viol or {"what": "seconds view with the whole-second bound(s) [%s...:%s...] (%s digits) raised %s instead of clamping like a Python slice" % (
+                str(a_)[:8], str(b_)[:8], max(len(str(a_)), len(str(b_))), type(e).__name__)}
     outs = C.model_eval(cases)
     mism = [(m, i, o) for m, i, o in zip(meta, impl, outs) if i != o]
     vm = C.vm_crosscheck(cases[:n_samples_cases], outs[:n_samples_cases], "C16", 30)
@@ -267,6 +295,59 @@ def eval_impl(pool, e, snap):
     raise ValueError(k)
 
 
+HUGE_DIV_SCRIPT = r"""
+import json, sys
+sys.path.insert(0, sys.argv[1])
+from auditok import AudioRegion
+out = None
+for L, w, ch in ((1, 2, 1), (3, 1, 2), (10, 2, 2)):
+    data = bytes((7 * i + 3) % 256 for i in range(L * w * ch))
+    reg = AudioRegion(data, 8000, w, ch)
+    for n in (10 ** 6, 2 ** 31, 10 ** 10, 2 ** 63, 2 ** 64, 10 ** 30):
+        print(json.dumps({"at": [L, w, ch, str(n)]}), flush=True)
+        try:
+            ps = reg / n
+            if len(ps) != L or b"".join(p.data for p in ps) != data:
+                out = {"what": "dividing a %d-sample region by %d gives %d pieces, not %d one-sample pieces that sum to the original" % (L, n, len(ps), L), "samples": L, "format(sw,ch)": [w, ch], "n": str(n)}
+        except BaseException as e:
+            out = {"what": "dividing a %d-sample region by %d raised %s" % (L, n, type(e).__name__), "samples": L, "format(sw,ch)": [w, ch], "n": str(n)}
+        if out:
+            break
+    if out:
+        break
+print(json.dumps({"result": out}), flush=True)
+"""
+
+
+def huge_divisors():
+    import json
+    import resource
+    import subprocess
+
+    def limit():
+        resource.setrlimit(resource.RLIMIT_AS, (3 << 30, 3 << 30))
+    last, result = None, "none"
+    try:
+        cp = subprocess.run([sys.executable, "-c", HUGE_DIV_SCRIPT, C.REPO], capture_output=True, text=True, timeout=60, preexec_fn=limit)
+        lines = [json.loads(l) for l in cp.stdout.splitlines() if l.startswith("{")]
+    except subprocess.TimeoutExpired as e:
+        txt = e.stdout.decode() if isinstance(e.stdout, bytes) else (e.stdout or "")
+        lines = [json.loads(l) for l in txt.splitlines() if l.startswith("{")]
+        lines.append({"timeout": True})
+    for l in lines:
+        if "at" in l:
+            last = l["at"]
+        if "result" in l:
+            result = l["result"]
+    if result == "none":
+        # the child did not reach the end: killed by the limits while dividing `last`
+        if last is None:
+            return None          # could not even start: not a statement about the code
+        return {"what": "dividing a %d-sample region (sw=%d, ch=%d) by %s did not finish within 60 s and 3 GiB: the work must depend on min(n, len), not on n" % (last[0], last[1], last[2], last[3]),
+                "samples": last[0], "format(sw,ch)": last[1:3], "n": last[3]}
+    return result
+
+
 def run_C17(res, tier):
     from auditok import AudioRegion, make_silence
     quick = tier == "quick"
@@ -344,6 +425,11 @@ def run_C17(res, tier):
                     viol = viol or {"what": "region / %r did not raise TypeError" % (bad,)}
                 except TypeError:
                     pass
+    # n far beyond the length (and beyond machine integers): still min(n, len) one-sample pieces.  Run in a child process under an
+    # address-space limit and a time limit (work proportional to n instead of len would exhaust either)
+    hv = huge_divisors()
+    if hv and viol is None:
+        viol = hv
     # equality
     for _ in range(300 if quick else 3000):
         w, ch = r.choice(FORMATS)
@@ -404,6 +490,16 @@ def run_C17(res, tier):
         except Exception as e:
             if viol is None and type(e).__name__ != "AudioParameterError":
                 viol = {"what": "join over a %s containing a region with other audio parameters raised %s instead of AudioParameterError" % (name, type(e).__name__)}
+    # joins nested lazily: the inner joins run while the outer one is consuming its iterable (words -> sentences -> text)
+    short_ = AudioRegion(mk_bytes(1, 2, 2, r), 10, 2, 2)
+    groups = [[AudioRegion(mk_bytes(k + j, 2, 2, r), 10, 2, 2) for k in (1, 2, 0)] for j in range(4)]
+    want_n = sep.data.join(short_.data.join(x.data for x in g) for g in groups)
+    try:
+        got_n = sep.join(short_.join(x for x in g) for g in groups)
+        if viol is None and got_n.data != want_n:
+            viol = {"what": "long.join(short.join(words) for words in sentences), the inner joins evaluated lazily while the outer one runs, holds %d bytes; the byte-level interleaving has %d" % (len(got_n.data), len(want_n))}
+    except Exception as e:
+        viol = viol or {"what": "nested lazy joins raised %s: %s" % (type(e).__name__, e)}
     # equality is about bytes and audio parameters only: start times (metadata of where a region was found) play no part
     d_eq = mk_bytes(5, 2, 2, r)
     for sa, sb in ((0.0, 1.5), (None, 2.0), (0.25, 0.25), (3.0, None)):
